@@ -12,7 +12,7 @@ from checks import eventcore_common as ec
 
 A = ec.ALL_ACTS | {"new", "free", "fin", "once", "exit", "break", "cont", "script", "wnew", "wfree", "flags", "addc", "initc", "maxclr"}
 S = {"break", "cont", "exit", "act", "later", "del", "add", "free", "fin"}
-NBAD = 11
+NBAD = 12
 
 
 def validate(chk, trace_path, label):
@@ -112,6 +112,13 @@ def run(tier, seed):
         chk.count_case(s["h"], True)
     chk.sample({"kind": "rejected-calls", "history": bad[0]["h"]})
     run_batch(chk, exe, bad, "badargs")
+    # the same rejected / failing calls under the poll and select backends (their dispatch error paths differ)
+    for be in ("select", "poll"):
+        sub = []
+        for s in bad[: (250 if q else 3000)]:
+            cfg = dict(s["cfg"]); cfg["backend"] = be; cfg["tick_ns"] = 1000000
+            sub.append({"cfg": cfg, "h": s["h"]})
+        run_batch(chk, exe, sub, "badargs_" + be)
     # (c) n-th allocation fails, for every n reached
     af = []
     pick = rnd.sample(range(len(plain)), min(len(plain), 40 if q else 600))
